@@ -266,6 +266,7 @@ impl<R: Region, S: IndexContainer<<R as Region>::Index>> FlatStack<R, S> {
     where
         R: ReserveItems<T>,
     {
+        self.indices.reserve(items.clone().count());
         ReserveItems::reserve_items(&mut self.region, items);
     }
 
